@@ -602,10 +602,8 @@ ini_val_set(const ini_p ini,
 		error = realloc_items((void**)&ini->lines,
 		    sizeof(ini_line_p), &ini->lines_allocated,
 		    INI_LINES_PREALLOC, ini->lines_count);
-		if (0 != error) {
-			free(line);
+		if (0 != error) /* New section line (if any) stays in ini->lines. */
 			return (error);
-		}
 		/* Add to section end. */
 		for (val_off = (sect_off + 1); val_off < ini->lines_count; val_off ++) {
 			if (NULL == ini->lines[val_off])
